@@ -1,8 +1,15 @@
 //! All property checks (one module per property or shared scenario).
 pub mod chain;
 pub mod market;
+pub mod miner;
+pub mod minercheck;
+pub mod minerlife;
 pub mod util;
 
+pub mod c02;
+pub mod c03;
+pub mod c04;
+pub mod c05;
 pub mod c06;
 pub mod c07;
 pub mod c08;
